@@ -3,7 +3,9 @@
 --   run <aux> <lagrange> <gkr draws> <aux rands> <transition constraints> <assertions> <log2 trace length>
 --       <trace width> <composition columns> <FRI layers> <queries> <lde size> <extension degree> <grinding>
 --       … (the rest of the line — field, hasher, options, trace seed, AIR description — is for the harness)
--- in the canonical text form the recording coin of harness/src/bin/c04.rs produces.
+-- in the canonical text form the recording coin of harness/src/bin/c04.rs produces, and
+--   ctx <field> <A> <B>     (A, B = mw.aw.ar.log2len.meta.q.b.g.x.f.r) the seed elements `Context::to_elements`
+--       of two proof contexts as the model computes them (`ctxElems`).
 import Winter.Drv.Util
 import Winter.Model.Transcript
 
@@ -20,11 +22,44 @@ def parseCfg (t : List String) : Option Cfg :=
     else none
   | _ => none
 
+def fieldOfName : String → Option (Nat × Nat)
+  | "f62" => some (4611624995532046337, 8)
+  | "f64" => some (18446744069414584321, 8)
+  | "f128" => some (340282366920938463463374557953744961537, 16)
+  | _ => none
+
+def isPow2 (x : Nat) : Bool := x != 0 && 2 ^ x.log2 == x
+
+/-- `mw.aw.ar.log2len.meta.q.b.g.x.f.r` (meta: hex or `-`); only tuples the constructors accept -/
+def parseCtx (fld : Nat × Nat) (s : String) : Option Ctx :=
+  match s.splitOn "." with
+  | [mw, aw, ar, ll, md, q, b, g, x, f, r] =>
+    match natList [mw, aw, ar, ll, q, b, g, x, f, r], unhex md with
+    | some [mw, aw, ar, ll, q, b, g, x, f, r], some md =>
+      if 1 ≤ mw ∧ mw + aw ≤ 255 ∧ ar ≤ 255 ∧ (aw = 0 → ar = 0) ∧ 3 ≤ ll ∧ ll ≤ 31 ∧ md.length ≤ 64 ∧
+         1 ≤ q ∧ q ≤ 255 ∧ isPow2 b ∧ 2 ≤ b ∧ b ≤ 128 ∧ 2 ^ ll * b < 4294967296 ∧ g ≤ 32 ∧ 1 ≤ x ∧ x ≤ 3 ∧
+         (f = 2 ∨ f = 4 ∨ f = 8 ∨ f = 16) ∧ r ≤ 255 ∧ isPow2 (r + 1) then
+        some { mainWidth := mw, auxWidth := aw, auxRands := ar, traceLen := 2 ^ ll, traceMeta := md,
+               modulus := fld.1, elemBytes := fld.2, queries := q, blowup := b, grinding := g, ext := x,
+               folding := f, remainder := r }
+      else none
+    | _, _ => none
+  | _ => none
+
+def showElems (xs : List Nat) : String := ",".intercalate (xs.map toString)
+
 def handle (toks : List String) : String :=
   match toks with
   | "run" :: rest =>
     match parseCfg rest with
     | some cfg => "P " ++ canon cfg (proverScript cfg) ++ " V " ++ canon cfg (verifierScript cfg)
+    | none => "-"
+  | ["ctx", fld, a, b] =>
+    match fieldOfName fld with
+    | some fd =>
+      match parseCtx fd a, parseCtx fd b with
+      | some ca, some cb => showElems (ctxElems ca) ++ " " ++ showElems (ctxElems cb)
+      | _, _ => "-"
     | none => "-"
   | _ => "-"
 
